@@ -144,11 +144,31 @@ func VerifC14Rejected() {
 	tc.AddEventHandler(rec.handler())
 	stop := make(chan struct{})
 	go tc.Run(stop)
-	row := ovsdb.Row{"num": rt.Int()}
-	err := tc.Populate2(ovsdb.TableUpdates2{"Root": ovsdb.TableUpdate2{fix.U1: &ovsdb.RowUpdate2{Modify: &row}}})
+	want := 0
+	var err error
+	switch rt.Choose(4) {
+	case 0: // a modify for a row the cache does not hold
+		row := ovsdb.Row{"num": rt.Int()}
+		err = tc.Populate2(ovsdb.TableUpdates2{"Root": ovsdb.TableUpdate2{fix.U1: &ovsdb.RowUpdate2{Modify: &row}}})
+	case 1: // a second insert of a row the cache already holds
+		row := ovsdb.Row{"name": "r1", "num": rt.Int()}
+		rt.Assert(tc.Populate2(ovsdb.TableUpdates2{"Root": ovsdb.TableUpdate2{fix.U1: &ovsdb.RowUpdate2{Insert: &row}}}) == nil, "C14: the first insert applies")
+		want = 1
+		row2 := ovsdb.Row{"name": "r1", "num": rt.Int()}
+		err = tc.Populate2(ovsdb.TableUpdates2{"Root": ovsdb.TableUpdate2{fix.U1: &ovsdb.RowUpdate2{Insert: &row2}}})
+	case 2: // an update-style delete of a row the cache does not hold
+		row := ovsdb.Row{"name": "r1"}
+		err = tc.Populate(ovsdb.TableUpdates{"Root": ovsdb.TableUpdate{fix.U1: &ovsdb.RowUpdate{Old: &row}}})
+	case 3: // an update2 delete of a row the cache does not hold
+		err = tc.Populate2(ovsdb.TableUpdates2{"Root": ovsdb.TableUpdate2{fix.U1: &ovsdb.RowUpdate2{Delete: &ovsdb.Row{}}}})
+	}
 	rt.RunPending()
 	rt.Reach("dispatched")
-	rt.Assert(err != nil, "C14: a modify for an unknown row is refused")
-	rt.Assert(len(rec.evs) == 0, "C14: no event is delivered for a change that was not applied")
-	rt.Assert(tc.Table("Root").Len() == 0, "C14: the refused change is not applied")
+	if err != nil {
+		rt.Assert(len(rec.evs) == want, "C14: no event is delivered for a change that was not applied")
+		rt.Assert(tc.Table("Root").Len() == want, "C14: the refused change is not applied")
+	} else {
+		// a change the cache chose to ignore: nothing changes and nothing is reported
+		rt.Assert(len(rec.evs) == want && tc.Table("Root").Len() == want, "C14: a change that is ignored delivers no event")
+	}
 }
